@@ -74,10 +74,10 @@ def _case(draw):
     seed = draw(st.integers(0, 2**31 - 1))
     if part == "samples":
         d = draw(st.integers(1, 5))
-        return {"part": part, "cls": draw(st.sampled_from(["BaseSamples", "Samples", "Samples", "SMCSamples"])),
+        return {"part": part, "cls": draw(st.sampled_from(["BaseSamples", "Samples", "Samples", "Samples", "SMCSamples"])),
                 "ns": draw(st.sampled_from(NS)), "width": draw(st.sampled_from(["float32", "float64"])),
                 "fields": draw(st.sampled_from([[], ["log_q"], ["log_likelihood", "log_prior"], ["log_likelihood", "log_prior", "log_q"],
-                                               ["log_likelihood", "log_prior", "log_q"]])),
+                                               ["log_likelihood", "log_prior", "log_q"], ["log_likelihood", "log_prior", "log_q"]])),
                 "flat": draw(st.booleans()), "n": draw(st.integers(1, 50)), "d": d,
                 "params": draw(st.lists(st.sampled_from(NAMES), min_size=d, max_size=d, unique=True)),
                 "beta": draw(st.sampled_from([None, 0.0, 0.5, 1.0])), "evidence": draw(st.sampled_from([None, -3.25])), "seed": seed}
@@ -228,6 +228,8 @@ def _samples(case, ctx, h5, labels):
                 bad = not (av == bv or abs(av - bv) <= tol or (math.isnan(av) and math.isnan(bv)))
             if bad:
                 ctx.fail(f"{what}:{f}", f"{f} {a!r} reloaded as {b!r}", case, field=f)
+            elif a is not None and hasattr(a, "dtype") and hasattr(b, "dtype") and env.width_of(a) != env.width_of(b):
+                ctx.fail(f"{what}:{f}-width", f"{f} was {a.dtype}, reloaded as {b.dtype}", case, field=f)
     labels += [case["cls"], case["ns"], case["width"]]
     return weighted or case["ns"] != "numpy" or any(ord(c) > 127 for p in case["params"] for c in p)
 
